@@ -350,11 +350,14 @@ next_ait(vbi_decoder *vbi, int pgno, int subno, cache_page **mvtp)
 				mpgno = ait->link.pgno;
 				msubno = ait->link.subno;
 
-				if (NULL != *mvtp)
+				if (*mvtp != vtp) {
 					cache_page_unref (*mvtp);
-
-				*mvtp = vtp;
+					*mvtp = vtp;
+				}
 			}
+
+			if (*mvtp != vtp)
+				cache_page_unref (vtp);
 		}
 	}
 
